@@ -31,6 +31,9 @@ block-wise) and internal_size_sha_file_byname goes through filtered_input_file.
 Third round: writers-see-whole-content — no call of filtered_output_bytes is given `[chunk]` for the variable of an enclosing loop or
 comprehension; accelerator-rules-under-accelerator-path — in bzr/transform.py:_create_files the hardlink guard looks rules up under the
 second (accelerator-side) name of each (tree path, accelerator path) pair.
+Fourth round: merge-filter-path-by-identity — every non-None return of Merge3Merger._get_filter_tree_path is preceded on every path by
+find_previous_path(). cached-stack-not-edited — no _content_filter_stack implementation applies a mutating list method, += or a subscript store to
+the list it received from super()._content_filter_stack()/filters._get_filter_stack_for() (the cache hands out one list per preference values).
 Does not decide: strings longer than the table's bound (the converters are length-independent: one regex substitution).
 """
 TO_LF, TO_CRLF, NATIVE = "_to_lf_converter", "_to_crlf_converter", "_native_output"
@@ -240,8 +243,34 @@ def run(ctx):
         a0 = c.args[0]
         ok_acc = isinstance(a0, (ast.List, ast.Tuple)) and len(a0.elts) == 1 and isinstance(a0.elts[0], ast.Name) and a0.elts[0].id in second
         ctx.check("accelerator-rules-under-accelerator-path", f"{TF}:_create_files", ok_acc, "the rules that forbid reusing an accelerator file are looked up under the accelerator tree's path of the (tree path, accelerator path) pair", construct=norm(c)[:90], message=f"_create_files asks accelerator_tree.iter_search_rules({norm(a0)[:40]}) — not the accelerator-side path of each pair: after an uncommitted rename across a rule boundary the guard consults the wrong name, a file stored in its working-tree (converted) form is hard-linked into the new tree and a fresh `branch --hardlink` reports it as modified")
+    # ---- fourth round: the path whose filters a merge writes with is found by file identity, not by name ----------------
+    MG = "breezy/merge.py"
+    fft = repo.func(MG, "Merge3Merger._get_filter_tree_path")
+    gft = build_cfg(fft)
+    finds = calling(gft, name="find_previous_path") or calling(gft, attr="find_previous_path")
+    ctx.require(bool(finds), f"{MG}:Merge3Merger._get_filter_tree_path: find_previous_path() not found")
+    rets_ = [n.id for n in gft.nodes if isinstance(n.ast, ast.Return) and n.ast.value is not None and not (isinstance(n.ast.value, ast.Constant) and n.ast.value.value is None)]
+    okb, wit = gft.always_before(finds, rets_)
+    ctx.check("merge-filter-path-by-identity", f"{MG}:Merge3Merger._get_filter_tree_path", bool(rets_) and okb, "every path answered for the filter lookup comes after find_previous_path(other_tree, working_tree, path): the working-tree file is matched by identity", construct=gft.show_path(wit) if wit else "", message="_get_filter_tree_path can answer a path without find_previous_path(): a path that is versioned in the working tree under OTHER's name may be a different file (THIS renamed the original and added a new file under the old name) — the merged text is written through the eol rule of the wrong name and is read back with its CRLF form as canonical content")
+    # ---- fourth round: the filter stack handed out by the shared cache is never edited in place -------------------------
+    n_cfs = 0
+    _MUT = {"extend", "append", "insert", "remove", "pop", "sort", "reverse", "clear", "__iadd__"}
+    for rel_ in repo.python_files(sub="breezy"):
+        for q_, f_ in repo.module(rel_).functions().items():
+            if not q_.endswith("._content_filter_stack"):
+                continue
+            n_cfs += 1
+            shared = {t.id for a in ast.walk(f_) if isinstance(a, ast.Assign) and isinstance(a.value, ast.Call) and ((call_attr(a.value) or "") in ("_content_filter_stack", "_get_filter_stack_for")) for t in a.targets if isinstance(t, ast.Name)}
+            edits = [norm(c)[:60] for c in calls_in(f_) if call_attr(c) in _MUT and call_recv(c) in shared]
+            edits += [norm(a)[:60] for a in ast.walk(f_) if isinstance(a, ast.AugAssign) and isinstance(a.target, ast.Name) and a.target.id in shared]
+            edits += [norm(a)[:60] for a in ast.walk(f_) if isinstance(a, (ast.Assign, ast.Delete)) and any(isinstance(t, ast.Subscript) and isinstance(t.value, ast.Name) and t.value.id in shared for t in (a.targets if hasattr(a, "targets") else []))]
+            ctx.check("cached-stack-not-edited", f"{rel_}:{q_}", not edits, "the list returned by the shared filter-stack lookup (cached per preference values in filters._stack_cache) is copied before anything is added", construct="; ".join(edits), message=f"{q_} edits the list it got from the shared filter-stack cache in place (`{edits[0] if edits else ''}`): filters._stack_cache hands the same list to every path with the same preference values, so after one lookup of a path with a custom driver every other path with the same eol setting runs that driver too — binary content is converted and an untouched tree reports changes")
+    ctx.require(n_cfs >= 2, f"_content_filter_stack implementations found: {n_cfs} (expected Tree and GitWorkingTree at least)")
+
 
 MUTANTS = [
+    Mutant("merge filter path taken by name when versioned", "breezy/merge.py", "            filter_path = _mod_tree.find_previous_path(\n                self.other_tree, self.working_tree, path\n            )\n            if filter_path is None:\n", "            if self.working_tree.has_filename(path):\n                return path\n            filter_path = _mod_tree.find_previous_path(\n                self.other_tree, self.working_tree, path\n            )\n            if filter_path is None:\n", expect="merge-filter-path-by-identity"),
+    Mutant("git custom filters appended to the cached stack in place", "breezy/git/workingtree.py", "            stack = list(stack) + self._git_custom_filter_stack(path)\n", "            stack += self._git_custom_filter_stack(path)\n", expect="cached-stack-not-edited"),
     Mutant("hardlink guard looks rules up under the tree path", "breezy/bzr/transform.py", "                if not next(accelerator_tree.iter_search_rules([ap]))\n", "                if not next(accelerator_tree.iter_search_rules([tp]))\n", expect="accelerator-rules-under-accelerator-path"),
     Mutant("to-LF converts the CRLF of CR CR LF again (fix 44a15cd reverted)", EF, '        return [_DOS_NL_RE.sub(b"\\n", content)]\n', '        return [content.replace(b"\\r\\n", b"\\n")]\n', expect="conversion-table"),
     Mutant("to-CRLF looks only at the first chunk for NUL", EF, '    content = b"".join(chunks)\n    if b"\\x00" in content:\n        return [content]\n    else:\n        return [_UNIX_NL_RE', '    content = b"".join(chunks)\n    if b"\\x00" in chunks[0]:\n        return [content]\n    else:\n        return [_UNIX_NL_RE', expect="nul-guard"),
